@@ -49,6 +49,9 @@ def _worlds(ck, n, start, exhaustive=False, tight=False):
         w = ms.gen_world(rng, start + i, n_mem=n_mem, bounds=bounds, rich_costs=True, kind=kind)
         for c in w["size"]:
             w["size"][c] = 65536
+        if i % 2 == 1:
+            w["allowpers"] = True
+            w["ninst"] = rng.choice([1, 2, 3])   # persistent holders keep one copy per instance
         if tight:
             # inner memories around the tile sizes so that capacity sometimes binds
             for c in w["size"]:
@@ -133,11 +136,11 @@ def run(ck: Check):
                "resource_usage()*size of evaluate_mapping; tight worlds have small inner memories so that rejection is "
                "exercised. Non-trivial = some memory where lowering or liveness makes a difference (peak or footprint "
                "below the unlowered tile sum); distinct by (world, node sequence).")
-    ck.assumptions += ["persistent tensors and n_instances scaling of C06 are not covered; fused trees are those the real "
-                       "mapper returns on 2- and 3-Einsum chains (one Sequential split; nested splits are counted, not modelled)"]
+    ck.assumptions += ["fused trees are those the real mapper returns on 2- and 3-Einsum chains (one Sequential split; nested "
+                       "splits are counted, not modelled); persistent holders are exercised in single-Einsum nests only"]
     small = _worlds(ck, 1, 1, exhaustive=True)
     ln.coverage_run(ck, small, "MC_LoopNest_tiny.cfg", "cov")
-    ex = _worlds(ck, 2 if not thorough else 5, 10, exhaustive=True)
+    ex = _worlds(ck, 1 if not thorough else 5, 10, exhaustive=True)
     res = ln.run_tlc(ck, ex, "MC_LoopNest_small.cfg" if not thorough else "MC_LoopNest_mid.cfg", "exh", timeout=3000)
     if not res.ok:
         raise Machinery("MC_LoopNest exhaustive run failed (lemma Peak<=Footprint<=Tile or execution invariant): %s\n%s"
@@ -146,7 +149,7 @@ def run(ck: Check):
     for tight in (False, True):
         sim = _worlds(ck, 6 if not thorough else 24, 100 + 50 * tight, tight=tight)
         res = ln.run_tlc(ck, sim, "MC_LoopNest_sim.cfg", "sim%d" % tight,
-                         simulate="num=%d" % (350 if not thorough else 5000), depth=1500,
+                         simulate="num=%d" % (200 if not thorough else 5000), depth=1500,
                          seed=ck.seed + 11 + tight, workers=8, timeout=3000)
         if not res.ok:
             raise Machinery("MC_LoopNest simulation failed: %s\n%s" % (res.violated, res.tail))
